@@ -245,7 +245,33 @@ def o_lineage(c):
     return None
 
 
-ORACLES = {'pieces': o_pieces, 'mass': o_mass, 'lineage': o_lineage}
+def c07_producer(spec):
+    _, digestion = _pt()
+    op = spec[0]
+
+    def anns(out, rt):
+        return [x[0] for x in out] if rt == 'annotation-span' else list(out)
+
+    if op == 'digest':
+        _, rules, mc, semi, rt = spec
+        return lambda a: anns(list(digestion.digest(a, list(rules), mc, semi, None, None, True, rt, True)), rt)
+    if op == 'gen':
+        _, which, lo, hi, rt = spec
+        return lambda a: anns(list(getattr(digestion, GENS[which])(a, lo, hi, rt)), rt)
+    if op == 'dispatch':
+        _, spans, rt = spec
+        return lambda a: anns(list(digestion._return_digested_sequences(a, [tuple(x) for x in spans], rt)), rt)
+    raise KeyError(op)
+
+
+def o_sharing(c):
+    """digested peptides must not share mutable state with the protein, with each other or with a later digest (and the mass
+    sum of a later digest must not move)"""
+    _, d, spec = c
+    return cc.sharing_failure(d, c07_producer(spec), f'{spec}')
+
+
+ORACLES = {'pieces': o_pieces, 'mass': o_mass, 'lineage': o_lineage, 'sharing': o_sharing}
 
 
 def _without(c, what):
@@ -539,6 +565,18 @@ def run(chk):
     cc.ranked_oracle(chk, 'pieces', ocases, o_pieces, classify, key_fn=repr, nontrivial_fn=o_nontrivial)
 
     cc.ranked_oracle(chk, 'lineage', lin, o_lineage, classify, key_fn=repr, nontrivial_fn=lambda c: True)
+
+    share = []
+    for idx, c in enumerate(dig if wide else dig[::2]):
+        rt = ('annotation', 'annotation-span')[idx % 2]
+        share.append(('sharing', c[1], ['digest', list(c[2]), c[3], c[4], rt]))
+    for idx, c in enumerate(gens if wide else gens[::2]):
+        rt = ('annotation-span', 'annotation')[idx % 2]
+        share.append(('sharing', c[1], ['gen', c[2], c[3], c[4], rt]))
+    for idx, c in enumerate(pcs[::3]):
+        if c[1]:
+            share.append(('sharing', c[0], ['dispatch', [list(x) for x in c[1]], ('annotation', 'annotation-span')[idx % 2]]))
+    chk.oracle('sharing', share, o_sharing, nontrivial_fn=lambda c: annot.undump(c[1]).has_mods(), key_fn=repr)
 
     # mass: zero missed cleavages, complete digestion, no length bounds
     mcases = []
